@@ -100,13 +100,13 @@ func init() {
 		Assumptions: []string{"the default-field name never occurs in the query (the statement's precondition)"},
 		Bounds: func(tier string) map[string]any {
 			if tier == "thorough" {
-				return map[string]any{"N_full": 5, "N_focused": 8, "trees": "T(21,2)"}
+				return map[string]any{"N_full": 5, "N_focused": 8, "trees": "T(25,2)"}
 			}
-			return map[string]any{"N_full": 4, "N_focused": 7, "trees": "T(21,1) ∪ T(6,2)"}
+			return map[string]any{"N_full": 4, "N_focused": 7, "trees": "T(25,1) ∪ T(6,2)"}
 		},
 		Deadline: func(tier string) int {
 			if tier == "thorough" {
-				return 2400
+				return 1000
 			}
 			return 300
 		},
